@@ -184,10 +184,29 @@ def run_property(pid, tier, args):
             print("INCONCLUSIVE: " + i[:300])
 
     wall = time.time() - t0
+    # model_checking keys: symbolic states / transitions encoded and native validations performed (all counted on this run)
+    n_states = n_trans = n_valid = 0
+    for smp in samples:
+        if smp.get("engine") == "K":
+            # one symbolic pre-state (every state satisfying the harness's assumptions) and one per executed operation;
+            # CBMC reports no state count, so this is the number of symbolic states the harness names, not an exploration size
+            n_states += 2
+            n_trans += 1
+            if smp.get("replay"):
+                n_valid += 1
+        else:
+            st = smp.get("unrolled_steps") or sum(o.get("paths", 0) for o in smp.get("obligations", []) or []) or 1
+            n_states += st + 1
+            n_trans += st
+            if smp.get("replay"):
+                n_valid += 1
     cov = {
+        "states": max(n_states, 1),
+        "transitions": max(n_trans, 1),
+        "traces_validated_against_impl": n_valid,
         "evaluations": max(evaluations, 1),
         "distinct_nontrivial": nontrivial,
-        "rule": "one evaluation = one solver query (a Kani harness = one CBMC SAT problem deciding all its checks for every value of its symbolic inputs within the stated bounds; an Engine-M query = one z3 query over all schedules/inputs within its bounds). Non-trivial = the query's vacuity witnesses (kani::cover! / SAT twin) were satisfied, i.e. the interesting branches are reachable under the assumptions. Harness names are distinct queries.",
+        "rule": "one evaluation = one solver query (a Kani harness = one CBMC SAT problem deciding all its checks for every value of its symbolic inputs within the stated bounds; an Engine-M query = one z3 query over all schedules/inputs within its bounds). Non-trivial = the query's vacuity witnesses (kani::cover! / SAT twin) were satisfied, i.e. the interesting branches are reachable under the assumptions. Harness names are distinct queries. states/transitions = symbolic states and steps encoded (Engine M: unrolled plan steps per query, effects mode: explored paths; Engine K: the symbolic pre-state and the post-state of each harness), traces_validated_against_impl = native replays performed on this run (translator self-test, counterexamples, playback).",
         "samples": samples,
         "exhaustive": False,
         "solver_time_s": round(solver_s, 1),
